@@ -76,59 +76,67 @@ def akrun_check(program, expected, what):
 
 # ------------------------------------------------------------------------------------------------ C09: rpad / rpad_and_clip
 @guard
-def h_listoffset_rpad(lens, target, clip, deep):
-    lens = list(lens)
+def h_rpad(cls, dims, target, clip, deep):
+    """rpad / rpad_and_clip of a list node: at the list level every list becomes max(len, target) long (exactly target with clip) by appending
+    None, nothing else changes; below it the same list structure wraps the padded content"""
     meth = 'rpad_and_clip' if clip else 'rpad'
-    fn = '_ZNK7awkward17ListOffsetArrayOfIlE%d%sElll' % (len(meth), meth)
-    kernels = ['awkward_index_rpad_and_clip_axis1', 'awkward_ListOffsetArray_rpad_and_clip_axis1', 'awkward_ListOffsetArray_rpad_length_axis1',
-               'awkward_ListOffsetArray_rpad_axis1', 'awkward_IndexedArray_simplify', 'awkward_ListOffsetArray_compact_offsets', 'awkward_ListArray_compact_offsets']
-    nc = NodeCtx(['LOA', 'IDX', 'CNT', 'UTL', 'KD', 'IA', 'RA', 'IDS'], kernels, unwind=max(8, sum(lens) + target * len(lens) + 4))
+    lens0 = node_lens(cls, dims)
+    nc = NodeCtx(['LOA', 'LA', 'RA', 'IDX', 'CNT', 'UTL', 'KD', 'IA', 'IDS'], [], unwind=max(8, sum(lens0) + (target + 1) * (len(lens0) + 1) + 4))
     F = nc.derived_stub('13rpad_and_clipElll' if clip else '4rpadElll', meth)
-    this, lists, offs = build_listoffset64(nc, lens)
+    this, lists, starts, offs, short = list_node(nc, cls, dims)
+    fn = '_ZNK7awkward%s%d%sElll' % (short, len(meth), meth)
     nc.m.record('ret', {})
     axis = 2 if deep else 1
     out = nc.m.call(fn, [Ptr('ret', 0), this, BV(target), BV(axis), BV(0)])
     obls = [('%s does not raise' % meth, out.raised)]
-    res = decode(nc, out.mem, nc.m.cell('ret', 0))
-    got = value(res)
     if deep:
         want = [[Elem(F(e.val)) for e in lst] for lst in lists]
         calls = [(pc, a) for pc, nm, a in out.trace if nm == meth]
-        obls.append(('the content is asked exactly once', z3.BoolVal(len(calls) != 1)))
+        obls.append(('the content is asked', z3.Not(z3.Or([pc for pc, _ in calls] + [z3.BoolVal(False)]))))
         for pc, a in calls:
             obls.append(('the content receives (target, axis, depth + 1)', z3.And(pc, z3.Or(a[0] != target, a[1] != axis, a[2] != 1))))
     else:
         want = [py_pad(lst, target, clip, NONE) for lst in lists]
-    obls += compare(got, want)
+    for g, res in nodeh.decode_cases(nc, out.mem, nc.m.cell('ret', 0)):
+        if res is None:
+            obls.append(('a result is returned', z3.And(g, z3.Not(out.raised))))
+        else:
+            obls += [(nm, z3.And(g, c)) for nm, c in compare(value(res), want)]
 
     def replay(model, ent):
-        ov = offsets_values(model, offs)
-        lc = max(model.eval(nc.lencontent, model_completion=True).as_signed_long(), ov[-1])
+        lc = model.eval(nc.lencontent, model_completion=True).as_signed_long()
         if lc > 200:
-            return False, 'content too long to replay (%d)' % lc, dict(offsets=ov)
-        head, inner = inner_lists(lc) if deep else ('i64 %s ' % fullnative.ints(range(lc)), None)
-        prog = head + 'listoffset64 %s %s %d %d' % (fullnative.ints(ov), 'rpadclip' if clip else 'rpad', target, axis)
-        inp = [list(range(ov[i], ov[i + 1])) for i in range(len(lens))]
+            return False, 'content too long to replay (%d)' % lc, {}
+        head, inp = node_program(nc, model, lc)
         if deep:
+            # same node over a content of lists: replace the leaf "i64 ..." by lists of differing lengths
+            ntoks = head.split()
+            cnt = int(ntoks[1])
+            h2, inner = inner_lists(cnt)
+            head = h2 + ' '.join(ntoks[2 + cnt:]) + ' '
             exp = [[py_pad(inner[x], target, clip, None) for x in lst] for lst in inp]
         else:
             exp = [py_pad(lst, target, clip, None) for lst in inp]
-        return akrun_check(prog, exp, 'ListOffsetArray64(offsets=%s)::%s(%d, axis=%d)' % (ov, meth, target, axis))
-    return mdischarge(nc.m, 'ListOffsetArray64::%s lens=%s target=%d axis=%d' % (meth, ','.join(map(str, lens)), target, axis), obls,
-                      [('non-zero offset origin', offs[0] > 0)], replay=replay, prefer=[offs[0] <= 3, nc.lencontent <= offs[-1] + 2],
-                      extra=dict(bounds='list lengths %s and target %d concrete (case split), offsets origin and content length symbolic' % (lens, target)))
+        prog = head + '%s %d %d' % ('rpadclip' if clip else 'rpad', target, axis)
+        return akrun_check(prog, exp, '%s %s::%s(%d, axis=%d)' % (cls, inp, meth, target, axis))
+    tw = [('non-zero offset origin', offs[0] > 0)] if cls != 'RegularArray' and lens0 else []
+    return mdischarge(nc.m, '%s::%s shape=%s target=%d axis=%d' % (cls, meth, ','.join(map(str, dims)), target, axis), obls, tw, replay=replay,
+                      prefer=[nc.lencontent <= 24] + [o <= 20 for o in offs],
+                      extra=dict(bounds='shape %s and target %d concrete (case split), origins and content length symbolic' % (dims, target)))
 
 
 def jobs_c09(tier):
     js = []
     shapes = [(0,), (2,), (0, 3), (2, 0, 1)] if tier == 'quick' else [l for n in (1, 2, 3) for l in itertools.product(range(4), repeat=n)]
+    regs = [(2, 2), (0, 2), (3, 1)] if tier == 'quick' else [(s_, l_) for s_ in range(4) for l_ in range(3)]
     targets = (0, 1, 3) if tier == 'quick' else (0, 1, 2, 3, 4)
-    for lens in shapes:
-        for t in targets:
-            for clip in (False, True):
-                js.append((h_listoffset_rpad, (lens, t, clip, False), 600))
-        js.append((h_listoffset_rpad, (lens, 2, True, True), 600))
-        js.append((h_listoffset_rpad, (lens, 2, False, True), 600))
+    for cls in ('ListOffsetArray64', 'ListArray64', 'RegularArray'):
+        for dims in (regs if cls == 'RegularArray' else shapes):
+            for t in targets:
+                for clip in (False, True):
+                    js.append((h_rpad, (cls, dims, t, clip, False), 600))
+            js.append((h_rpad, (cls, dims, 2, True, True), 600))
+            js.append((h_rpad, (cls, dims, 2, False, True), 600))
     return js
 
 
@@ -150,65 +158,102 @@ NUM_KERNELS = ['awkward_ListArray_num', 'awkward_RegularArray_num', 'awkward_Lis
 
 
 @guard
-def h_num(cls, shape, deep):
+def h_num(cls, dims, deep):
     """num(axis) of a list node: axis 1 -> the list lengths (a NumpyArray of int64); deeper axis -> same list structure around content.num(axis, depth + 1)"""
-    nc = NodeCtx(['LOA', 'LA', 'RA', 'NA', 'IDX', 'CNT', 'UTL', 'KD', 'IDS'], [k for k in NUM_KERNELS if k != 'awkward_new_Identities'], unwind=max(8, sum(shape) + 6))
+    lens0 = node_lens(cls, dims)
+    nc = NodeCtx(['LOA', 'LA', 'RA', 'NA', 'IDX', 'CNT', 'UTL', 'KD', 'IDS'], [], unwind=max(8, sum(lens0) + len(lens0) + 6))
     F = nc.derived_stub('3numEll', 'num')
-    if cls == 'ListOffsetArray64':
-        this, lists, offs = build_listoffset64(nc, list(shape))
-        fn = '_ZNK7awkward17ListOffsetArrayOfIlE3numEll'
-    else:
-        size, length = shape
-        this, lists = build_regular(nc, size, length)
-        offs = None
-        fn = '_ZNK7awkward12RegularArray3numEll'
+    this, lists, starts, offs, short = list_node(nc, cls, dims)
     nc.m.record('ret', {})
     axis = 2 if deep else 1
-    out = nc.m.call(fn, [Ptr('ret', 0), this, BV(axis), BV(0)])
+    out = nc.m.call('_ZNK7awkward%s3numEll' % short, [Ptr('ret', 0), this, BV(axis), BV(0)])
     obls = [('num does not raise', out.raised)]
-    res = decode(nc, out.mem, nc.m.cell('ret', 0))
-    got = value(res)
     if deep:
         want = [[Elem(F(e.val)) for e in lst] for lst in lists]
         calls = [(pc, a) for pc, nm, a in out.trace if nm == 'num']
-        obls.append(('the content is asked exactly once', z3.BoolVal(len(calls) != 1)))
+        obls.append(('the content is asked', z3.Not(z3.Or([pc for pc, _ in calls] + [z3.BoolVal(False)]))))
         for pc, a in calls:
             obls.append(('the content receives (axis, depth + 1)', z3.And(pc, z3.Or(a[0] != axis, a[1] != 1))))
     else:
         want = [Elem(BV(len(lst))) for lst in lists]
-    obls += compare(got, want)
+    for g, res in nodeh.decode_cases(nc, out.mem, nc.m.cell('ret', 0)):
+        if res is None:
+            obls.append(('a result is returned', z3.And(g, z3.Not(out.raised))))
+        else:
+            obls += [(nm, z3.And(g, c)) for nm, c in compare(value(res), want)]
 
     def replay(model, ent):
         lc = model.eval(nc.lencontent, model_completion=True).as_signed_long()
-        if cls == 'ListOffsetArray64':
-            ov = offsets_values(model, offs)
-            lc = max(lc, ov[-1])
-            node = 'listoffset64 %s' % fullnative.ints(ov)
-            inp = [list(range(ov[i], ov[i + 1])) for i in range(len(shape))]
-        else:
-            lc = max(lc, shape[0] * shape[1])
-            node = 'regular %d %d' % (shape[0], shape[1])
-            inp = [list(range(i * shape[0], (i + 1) * shape[0])) for i in range(shape[1])]
         if lc > 200:
             return False, 'content too long to replay (%d)' % lc, dict()
-        head, inner = inner_lists(lc) if deep else ('i64 %s ' % fullnative.ints(range(lc)), None)
-        prog = head + node + ' num %d' % axis
-        exp = [[len(inner[x]) for x in lst] for lst in inp] if deep else [len(lst) for lst in inp]
-        return akrun_check(prog, exp, '%s %s::num(axis=%d)' % (cls, node, axis))
-    return mdischarge(nc.m, '%s::num shape=%s axis=%d' % (cls, ','.join(map(str, shape)), axis), obls, [], replay=replay,
-                      prefer=([offs[0] <= 3] if offs else []) + [nc.lencontent <= 30],
-                      extra=dict(bounds='shape %s concrete (case split), offsets origin and content length symbolic' % (shape,)))
+        head, inp = node_program(nc, model, lc)
+        if deep:
+            ntoks = head.split()
+            cnt = int(ntoks[1])
+            h2, inner = inner_lists(cnt)
+            head = h2 + ' '.join(ntoks[2 + cnt:]) + ' '
+            exp = [[len(inner[x]) for x in lst] for lst in inp]
+        else:
+            exp = [len(lst) for lst in inp]
+        return akrun_check(head + 'num %d' % axis, exp, '%s %s::num(axis=%d)' % (cls, inp, axis))
+    return mdischarge(nc.m, '%s::num shape=%s axis=%d' % (cls, ','.join(map(str, dims)), axis), obls, [], replay=replay,
+                      prefer=[nc.lencontent <= 24] + [o <= 20 for o in offs],
+                      extra=dict(bounds='shape %s concrete (case split), origins and content length symbolic' % (dims,)))
+
+
+@guard
+def h_localindex(cls, dims, deep):
+    """local_index(axis) of a list node: 0..len-1 inside every list at the list level; below it the same structure around content.localindex"""
+    lens0 = node_lens(cls, dims)
+    nc = NodeCtx(['LOA', 'LA', 'RA', 'NA', 'IDX', 'CNT', 'UTL', 'KD', 'IDS'], [], unwind=max(8, sum(lens0) + len(lens0) + 6))
+    F = nc.derived_stub('10localindexEll', 'localindex')
+    this, lists, starts, offs, short = list_node(nc, cls, dims)
+    nc.m.record('ret', {})
+    axis = 2 if deep else 1
+    out = nc.m.call('_ZNK7awkward%s10localindexEll' % short, [Ptr('ret', 0), this, BV(axis), BV(0)])
+    obls = [('localindex does not raise', out.raised)]
+    if deep:
+        want = [[Elem(F(e.val)) for e in lst] for lst in lists]
+        calls = [(pc, a) for pc, nm, a in out.trace if nm == 'localindex']
+        obls.append(('the content is asked', z3.Not(z3.Or([pc for pc, _ in calls] + [z3.BoolVal(False)]))))
+        for pc, a in calls:
+            obls.append(('the content receives (axis, depth + 1)', z3.And(pc, z3.Or(a[0] != axis, a[1] != 1))))
+    else:
+        want = [[Elem(BV(j)) for j in range(len(lst))] for lst in lists]
+    for g, res in nodeh.decode_cases(nc, out.mem, nc.m.cell('ret', 0)):
+        if res is None:
+            obls.append(('a result is returned', z3.And(g, z3.Not(out.raised))))
+        else:
+            obls += [(nm, z3.And(g, c)) for nm, c in compare(value(res), want)]
+
+    def replay(model, ent):
+        lc = model.eval(nc.lencontent, model_completion=True).as_signed_long()
+        if lc > 200:
+            return False, 'content too long to replay (%d)' % lc, dict()
+        head, inp = node_program(nc, model, lc)
+        if deep:
+            ntoks = head.split()
+            cnt = int(ntoks[1])
+            h2, inner = inner_lists(cnt)
+            head = h2 + ' '.join(ntoks[2 + cnt:]) + ' '
+            exp = [[list(range(len(inner[x]))) for x in lst] for lst in inp]
+        else:
+            exp = [list(range(len(lst))) for lst in inp]
+        return akrun_check(head + 'localindex %d' % axis, exp, '%s %s::localindex(axis=%d)' % (cls, inp, axis))
+    return mdischarge(nc.m, '%s::localindex shape=%s axis=%d' % (cls, ','.join(map(str, dims)), axis), obls, [], replay=replay,
+                      prefer=[nc.lencontent <= 24] + [o <= 20 for o in offs],
+                      extra=dict(bounds='shape %s concrete (case split), origins and content length symbolic' % (dims,)))
 
 
 def jobs_c05(tier):
     js = []
     shapes = [(0,), (2,), (0, 3), (2, 0, 1)] if tier == 'quick' else [l for n in (1, 2, 3) for l in itertools.product(range(4), repeat=n)]
-    for lens in shapes:
-        for deep in (False, True):
-            js.append((h_num, ('ListOffsetArray64', lens, deep), 600))
-    for size, length in ([(0, 3), (2, 2), (1, 0), (3, 1)] if tier == 'quick' else itertools.product(range(4), range(4))):
-        for deep in (False, True):
-            js.append((h_num, ('RegularArray', (size, length), deep), 600))
+    regs = [(0, 3), (2, 2), (1, 0), (3, 1)] if tier == 'quick' else [(s_, l_) for s_ in range(4) for l_ in range(4)]
+    for cls in ('ListOffsetArray64', 'ListArray64', 'RegularArray'):
+        for dims in (regs if cls == 'RegularArray' else shapes):
+            for deep in (False, True):
+                js.append((h_num, (cls, dims, deep), 600))
+                js.append((h_localindex, (cls, dims, deep), 600))
     pats = [(0,), (1,), (0, 1, 0), (1, 0, 0), (0, 0, 1, 0)] if tier == 'quick' else [p for n in (1, 2, 3, 4) for p in itertools.product((0, 1), repeat=n)]
     for p in pats:
         for deep in (False, True):
